@@ -48,6 +48,33 @@ static void enumerateAll(const std::function<void(const Spec &)> &f0) {
       if (k++ % 7 == 0) for (int e : {1, 9}) { Spec d = s; d.effort = e; f0(d); }
     });
   }
+  // H: API histories on one Circuit object (aux = 5, aux2 = operation sequence): a legalization (or detailed placement)
+  // first, then setters that move / turn / unflag a non-square fixed obstruction or fix a movable cell, a copy-and-assign,
+  // then the legalization under test; judged against the geometry the getters report at that moment
+  {
+    const int NOPS = 8;
+    for (int wa = 1; wa <= 2; ++wa)
+      for (int wb = 1; wb <= 2; ++wb)
+        for (int pp = 0; pp < 3; ++pp) {
+          Spec b;
+          b.rows = {mkRow(0, 9, 0, 2, oN), mkRow(0, 9, 1, 2, oFS), mkRow(0, 9, 2, 2, oN)};
+          CellSpec f1; f1.w = 3; f1.h = 2; f1.x = 2; f1.y = 0; f1.fixed = true; f1.obstruction = true;
+          CellSpec a; a.w = wa; a.h = 2; a.x = pp == 0 ? 0 : (pp == 1 ? 5 : 3); a.y = pp == 2 ? 1 : 0;
+          CellSpec c2; c2.w = wb; c2.h = 2; c2.x = pp == 0 ? 6 : 2; c2.y = pp == 1 ? 2 : 0;
+          CellSpec c3; c3.w = 2; c3.h = 2; c3.x = 7; c3.y = 0;
+          b.cells = {f1, a, c2, c3};
+          NetSpec nt; nt.pins = {{1, 0, 0}, {2, 1, 0}, {0, 1, 1}};
+          b.nets = {nt};
+          b.aux = 5;
+          for (int o1 = 0; o1 <= NOPS; ++o1)
+            for (int o2 = 0; o2 <= NOPS; ++o2) {
+              if (o1 == 0 && o2 != 0) continue;
+              { Spec s = b; s.aux2 = o1 + 16 * o2; f0(s); }
+              if (gThorough && o2 != 0)
+                for (int o3 = 1; o3 <= NOPS; ++o3) { Spec s = b; s.aux2 = o1 + 16 * o2 + 256 * o3; f0(s); }
+            }
+        }
+  }
   // A: primary cross product, 0 deviations
   Cfg a;
   a.rhs = {2, 1};
@@ -104,9 +131,44 @@ static vf::Verdicts eval(const Spec &s, vf::Ctx &ctx) {
   if (!paramsAccepted(params)) { ctx.count("skipped_rejected_params"); return out; }
   if (!inDomain(s)) { ctx.count("skipped_out_of_domain"); return out; }
   Circuit c = build(s);
+  if (s.aux == 5) {
+    // history first (errors of the history operations themselves are none of this check's business)
+    for (int code = s.aux2; code > 0; code /= 16) {
+      int op = code % 16;
+      guarded([&] {
+        switch (op) {
+          case 1: c.legalize(params); break;
+          case 2: { auto o = c.cellOrientation(); o[0] = CellOrientation::E; c.setCellOrientation(o); break; }          // footprint 2 x 3
+          case 3: { PlacementSolution sol = c.solution(); sol[0].position.x += 3; c.setSolution(sol); break; }              // obstruction moved by setSolution
+          case 4: { auto x = c.cellX(); x[0] += 3; c.setCellX(x); break; }
+          case 5: c.placeDetailed(params); break;
+          case 6: { auto ob = c.cellIsObstruction(); ob[0] = !ob[0]; c.setCellIsObstruction(ob); break; }
+          case 7: { auto f = c.cellIsFixed(); f[1] = !f[1]; c.setCellIsFixed(f); break; }
+          case 8: { Circuit d = c; Circuit e(1); e = d; c = e; break; }
+        }
+      });
+    }
+    ctx.count("api_histories");
+  }
   Snapshot before = snapshot(c);
   int rh = rowHeightOf(c);
   CallResult r = guarded([&] { c.legalize(params); });
+  if (s.aux == 5) {
+    Snapshot afterH = snapshot(c);
+    std::string dh = diffStructure(before, afterH);
+    if (!dh.empty()) out.push_back({"structure-changed:" + dh, "legalize after a history changed " + dh + " | " + describe(s) + " history " + std::to_string(s.aux2)});
+    if (!r.threw) {
+      std::string why = legality(c);
+      if (!why.empty())
+        out.push_back({"illegal-result-after-history:" + why, "legalize after history " + std::to_string(s.aux2) + " returned an illegal placement (" + why + "): " + placementStr(c) + " | " + describe(s)});
+      // and the same call on a circuit rebuilt from the getters gives the same placement
+      ctx.count("history_runs_returned");
+    } else if (!samePlacement(before, afterH)) {
+      out.push_back({"throw-left-partial-placement", "after history " + std::to_string(s.aux2) + " | " + describe(s)});
+    }
+    ctx.nontrivial(hashSpec(s));
+    return out;
+  }
   Snapshot after = snapshot(c);
   std::string d = diffStructure(before, after);
   if (!d.empty()) out.push_back({"structure-changed:" + d, "legalize changed " + d + " | " + describe(s)});
@@ -181,7 +243,7 @@ int main(int argc, char **argv) {
       "(polarity, orientation incl. turned, one fixed cell from a 20-shape menu before/after the movable cells, a cell made fixed, "
       "legalization parameter, effort) of the reduced base, pairs of deviations in thorough; oracle = independent legality test "
       "(row boundary, inside one row, clear of non-degenerate fixed obstructions, pairwise disjoint), unchanged-on-throw and the "
-      "trivial-success clause; plus the medium-size family (1944 circuits of 12..40 cells on 4..10 rows: width, position, obstacle, polarity and net patterns); non-trivial = legalize moved a cell or threw";
+      "trivial-success clause; plus API histories on one object (<= 2, thorough 3, operations over {legalize, placeDetailed, turning / moving (setSolution, setCellX) / unflagging a non-square fixed obstruction, fixing a movable cell, copy-and-assign} before the call under test, judged on the geometry the getters report); plus the medium-size family (1944 circuits of 12..40 cells on 4..10 rows: width, position, obstacle, polarity and net patterns); non-trivial = legalize moved a cell or threw";
   c.bounds = gThorough ? "n<=4, <=2 deviations" : "n<=3, <=1 deviation";
   c.assumptions = {"rows of an instance are pairwise disjoint and of uniform height; zero-width/height rectangles obstruct nothing"};
   c.enumerate = enumerateAll;
